@@ -269,6 +269,22 @@ theorem twopc_pos_advances_like_filestore (s : TwoPC.State) (t : TwoPC.TxnId) :
     simp only [TwoPC.transHdrLen]
     omega
 
+/-- C05 ↔ C04 ↔ C01, reachable states: after ANY sequence of API calls of C05's machine (begins,
+    stores, blob stores, deletes, votes, finishes, aborts, armed faults — failed and refused calls
+    included) `_pos` is C04's computed end of the translated committed log, i.e. the length of the
+    bytes C01 writes for it. -/
+theorem twopc_pos_is_file_length (ops : List TwoPC.Op) :
+    (TwoPC.run {} ops).pos = FileStore.logEnd ((TwoPC.run {} ops).txns.map twoTxn) ∧
+    (TwoPC.run {} ops).pos =
+      (Format.encodeFile (logF ((TwoPC.run {} ops).txns.map twoTxn))).length := by
+  have h := (run_posInv {} ops posInv_init).pos
+  rw [logSize2_eq_logEnd] at h
+  exact ⟨h, by rw [encodeFile_logF_length]; exact h⟩
+
+example : (TwoPC.run {} [.begin 1 5 32 1 2 0, .store 1 1 0 3 9, .delete 1 2 0, .store 1 2 0 4 8,
+      .vote 1, .finish 1, .begin 2 6 32 0 0 0, .store 2 1 5 2 7, .vote 2, .abort 2]).pos = 129 := by
+  decide +kernel
+
 example : (twoTxn ⟨5, 32, 1, 2, 0, [⟨1, 5, 0, false, 3, 9⟩, ⟨2, 5, 0, true, 0, 0⟩]⟩).size = 129 ∧
     (Format.encodeTxn (ftxnF [] (twoTxn ⟨5, 32, 1, 2, 0, [⟨1, 5, 0, false, 3, 9⟩, ⟨2, 5, 0, true, 0, 0⟩]⟩))).length
       = 129 := by decide +kernel
@@ -276,20 +292,18 @@ example : (twoTxn ⟨5, 32, 1, 2, 0, [⟨1, 5, 0, false, 3, 9⟩, ⟨2, 5, 0, tr
 /-! ## §3  History queries: `History.lean` (C04) = the private histories of C07, C16, C02/C15 -/
 
 /-- C07 ↔ C04: `Pack.loadBefore` on the translated history is `History.loadBefore` (data, serial,
-    end tid; `None`; KeyError), for every oid and bound, sorted or not.  Hypothesis `UniqueOids`:
-    every transaction holds at most one record per oid — `Pack.Txn.recOf` takes the FIRST record
-    of an oid in a transaction, `History.Txn.recOf` (and FileStorage, whose index keeps the last
-    offset) the LAST; corner: `ex_pack_duplicate_corner`. -/
-theorem pack_loadBefore_is_history (refs : Bytes → List Nat) (h : History.History) (o b : Nat)
-    (hu : UniqueOids h) :
+    end tid; `None`; KeyError), for every oid and bound, sorted or not, with NO hypothesis: both
+    models take the LAST record of an oid in a transaction (`Pack.Txn.recOf` through `dedupLast`,
+    `Proofs.Pack.recOf_eq_last`), as FileStorage's index does — duplicate-oid transactions
+    included, see `ex_pack_duplicate_agrees`. -/
+theorem pack_loadBefore_is_history (refs : Bytes → List Nat) (h : History.History) (o b : Nat) :
     Pack.loadBefore (histP refs h) o b = loadP (History.loadBefore h o b) :=
-  loadBeforeP refs h o b hu
+  loadBeforeP refs h o b
 
 /-- … and the revision lists (what `recsOf`, `lastBefore`, `firstFrom`, `curAt` are computed from) -/
-theorem pack_recsOf_is_history (refs : Bytes → List Nat) (h : History.History) (o : Nat)
-    (hu : UniqueOids h) :
+theorem pack_recsOf_is_history (refs : Bytes → List Nat) (h : History.History) (o : Nat) :
     Pack.recsOf (histP refs h) o = (History.revs h o).map (fun rv => (rv.tid, recP refs rv.record)) :=
-  recsOfP refs h o hu
+  recsOfP refs h o
 
 /-- the two well-formedness notions are the same predicate -/
 theorem pack_sorted_is_history_wf (refs : Bytes → List Nat) (h : History.History) :
@@ -297,12 +311,20 @@ theorem pack_sorted_is_history_wf (refs : Bytes → List Nat) (h : History.Histo
   unfold Pack.Sorted History.WF histP
   rw [List.pairwise_map]; rfl
 
-def exDup : History.History := [⟨1, 32, [], [], [], [⟨1, some [7], none⟩, ⟨1, some [8], none⟩]⟩]
-/-- corner: two records of one oid in one transaction (FileStorage accepts a second `store`; a
-    multi-transaction undo writes such transactions) — C04 answers the last one, C07's model the first -/
-theorem ex_pack_duplicate_corner :
-    History.loadBefore exDup 1 2 = .ok (some ([8], 1, none)) ∧
-    Pack.loadBefore (histP (fun _ => []) exDup) 1 2 = .some [7] 1 none := by decide
+def exDup : History.History :=
+  [⟨1, 32, [], [], [], [⟨1, some [7], none⟩, ⟨2, some [5], none⟩, ⟨1, some [8], none⟩]⟩,
+   ⟨2, 32, [], [], [], [⟨1, some [9], none⟩, ⟨1, none, none⟩]⟩]
+/-- agreement on transactions with two records of one oid (FileStorage accepts a second `store`;
+    a multi-transaction undo writes such transactions): both models answer the last record — the
+    former first-wins `Pack.Txn.recOf` answered `[7]` and `[9]` here -/
+theorem ex_pack_duplicate_agrees :
+    History.loadBefore exDup 1 2 = .ok (some ([8], 1, some 2)) ∧
+    Pack.loadBefore (histP (fun _ => []) exDup) 1 2 = .some [8] 1 (some 2) ∧
+    History.loadBefore exDup 1 3 = .error .keyError ∧
+    Pack.loadBefore (histP (fun _ => []) exDup) 1 3 = .keyError ∧
+    ¬ UniqueOids exDup := by
+  refine ⟨by decide, by decide, by decide, by decide, fun h => ?_⟩
+  exact absurd (h _ List.mem_cons_self) (by decide)
 
 def exH : History.History :=
   [⟨1, 32, [117], [], [], [⟨1, some [7], none⟩, ⟨2, some [8, 8], none⟩]⟩,
